@@ -1,7 +1,7 @@
 #!/bin/bash
 # usage: tryseed.sh <patch> <prop>... ; applies the patch to /repo, runs the quick checks, restores /repo
 patch=$1; shift
-cd /repo && git stash -q 2>/dev/null; git apply "$patch" || { echo "PATCH DOES NOT APPLY"; exit 2; }
+cd /repo && git apply "$patch" || { echo "PATCH DOES NOT APPLY"; exit 2; }
 (go build ./... && go test -count=1 ./... 2>&1 | grep -E "^(--- FAIL|ok|FAIL)")
 cd /verif
 for p in "$@"; do
